@@ -139,6 +139,11 @@ def stage_scenarios():
         out.append({"steps": 5, "save_every": k, "save": True, "interrupt": (where, j), "pause": pause, "answer": answer})
     for where, j in (("update", 1),):
         out.append({"steps": 4, "save_every": 2, "save": False, "interrupt": (where, j), "pause": False, "answer": None})
+    # an error (not Ctrl-C) raised by the n-th update / the n-th save: the stage must not swallow it
+    for k, where, j, save in itertools.product((1, 2), ("update", "save"), (0, 2), (True, False)):
+        if where == "save" and not save:
+            continue
+        out.append({"steps": 5, "save_every": k, "save": save, "interrupt": (where, j), "pause": False, "answer": None, "error": "RuntimeError"})
     return out
 
 
@@ -172,7 +177,7 @@ def _machine(repo, sc, tr, counters, entry):
             counters["update_calls"] += 1
             if sc["interrupt"] == ("update", j):
                 tr.events.append(Ev("INTERRUPT", during="update"))
-                raise _Interrupt("KeyboardInterrupt")
+                raise _Interrupt(sc.get("error") or "KeyboardInterrupt")
             counters["version"] += 1
             v = counters["version"]
             state = args[0] if args else None
@@ -185,7 +190,7 @@ def _machine(repo, sc, tr, counters, entry):
             state, data, rs = (list(args) + [kwargs.get("state"), kwargs.get("data"), kwargs.get("running_state")])[:3] if len(args) < 3 else args[:3]
             if sc["interrupt"] == ("save", j):
                 tr.events.append(Ev("INTERRUPT", during="save"))
-                raise _Interrupt("KeyboardInterrupt")
+                raise _Interrupt(sc.get("error") or "KeyboardInterrupt")
             content = None
             if isinstance(data, dict):
                 vs = {re.sub(r".*@", "", render(x)) for x in data.values()}
@@ -272,6 +277,9 @@ def run_scenarios():
     # cancelled during thermalisation / during the recorded stage
     out.append({"steps": 3, "save_every": 2, "skip_time": 2 * DT, "interrupt": ("update", 1), "pause": False, "answer": None})
     out.append({"steps": 3, "save_every": 2, "skip_time": 2 * DT, "interrupt": ("update", 3), "pause": False, "answer": None})
+    # an error during thermalisation / during the recorded stage ends the run with that error
+    out.append({"steps": 3, "save_every": 2, "skip_time": 2 * DT, "interrupt": ("update", 1), "pause": False, "answer": None, "error": "RuntimeError"})
+    out.append({"steps": 3, "save_every": 2, "skip_time": 2 * DT, "interrupt": ("update", 3), "pause": False, "answer": None, "error": "RuntimeError"})
     return out
 
 
